@@ -629,6 +629,14 @@ func (k Keeper) WithdrawLimitAuctionBid(ctx sdk.Context, bidder string, Collater
 	}
 	auctionParams, _ := k.GetAuctionParams(ctx)
 
+	// a bidder can only take out the asset deposited, and at most what is still deposited
+	if amount.Denom != userLimitBid.DebtToken.Denom {
+		return types.ErrorUnknownDebtToken
+	}
+	if amount.Amount.GT(userLimitBid.DebtToken.Amount) {
+		return types.ErrorMaxBidAmount
+	}
+
 	if amount.Amount.Equal(userLimitBid.DebtToken.Amount) {
 		err := k.CancelLimitAuctionBid(ctx, bidder, DebtTokenId, CollateralTokenId, PremiumDiscount)
 		if err != nil {
